@@ -19,6 +19,7 @@ RULE = (
     "its debt token's liquidity index."
 )
 ASSUMPTIONS = [
+    "a bar whose health factor before update() lies within 1e-30 of 1 without being exactly 1 is not asserted (35-digit arithmetic decides the side)",
     "collateral-enabled tokens have a positive liquidation threshold (Aave's own validation); the 'liquidated iff HF < 1' "
     "direction is not asserted for a state in which a supply with threshold 0 was flagged as collateral by hand",
     "which collateral / debt pair a step picks is not prescribed by the property; only the arithmetic of the step is",
@@ -64,6 +65,11 @@ class Obs(aave.Observer):
         others = [a for a in w.actions[self.acts_before :] if type(a).__name__ != "LiquidationAction"]
         ctx.check(not others, "update.other_actions", lambda: f"update() recorded {[type(a).__name__ for a in others]}", case)
         hand_flagged_zero_lt = any(c and w.par[n]["lt"] == 0 for n, (b, c) in S0["sup"].items())
+        if r0.B > 0 and r0.hf != INF and r0.hf != 1 and abs(r0.hf - 1) <= Fraction(1, 10**30):
+            # the health factor sits on 1 to within the last digits of the 35-digit arithmetic (e.g. 2.2222... WETH left by an
+            # earlier step): which side the implementation's own rounding puts it on is not the statement's business
+            self.labels.add("hf.edge_of_1.skipped")
+            return
         healthy = r0.B == 0 or r0.hf >= 1
         if healthy:
             self.labels.add("not_liquidated.healthy" if r0.B > 0 else "no_debt")
